@@ -109,6 +109,34 @@ type vSent struct {
 	Payload string `json:"payload,omitempty"` // only when at most 4096 bytes
 	Marshal string `json:"marshal"`
 	Digest  string `json:"digest"`
+	// what the harness's interpreter of the .ral text did with the payload (entry point, abort reason, values of the
+	// variables it computed: "n:<decimal>" or "b:<hex>", byte strings of at most 4096 bytes only)
+	RalFn    string            `json:"ral_fn,omitempty"`
+	RalAbort string            `json:"ral_abort,omitempty"`
+	Ral      map[string]string `json:"ral,omitempty"`
+	// the same for damaged copies of the payload (one byte shorter / longer, a flipped bit in the first field bytes, cut
+	// after the action id): exercises the aborting paths of the contract parsers
+	RalVariants []*vRalVar `json:"ral_variants,omitempty"`
+}
+
+type vRalVar struct {
+	Payload string            `json:"payload"`
+	Abort   string            `json:"abort"`
+	Ral     map[string]string `json:"ral"`
+}
+
+func vRalValues(run *ralRun) map[string]string {
+	out := map[string]string{}
+	for name, val := range run.env {
+		switch {
+		case name == "payload" || strings.Contains(name, "."):
+		case val.k == rvNum:
+			out[name] = "n:" + val.n.String()
+		case val.k == rvBytes && len(val.b) <= 4096:
+			out[name] = "b:" + hex.EncodeToString(val.b)
+		}
+	}
+	return out
 }
 
 type vRow struct {
@@ -315,7 +343,7 @@ func vRequested(m *vMsg) string {
 }
 
 // the property statement on one produced VAA
-func vMonVAA(o *vMon, c *ralContracts, gc vaa.ChainID, ga vaa.Address, ts, gsi uint32, m *vMsg, v *vaa.VAA) {
+func vMonVAA(o *vMon, c *ralContracts, gc vaa.ChainID, ga vaa.Address, ts, gsi uint32, m *vMsg, v *vaa.VAA, rec *vSent) {
 	k := m.Kind
 	if v.EmitterChain != gc || v.EmitterAddress != ga {
 		o.add("emitter:"+k, "emitter %d/%x is not the configured governance emitter %d/%x", v.EmitterChain, v.EmitterAddress[:], gc, ga[:])
@@ -380,6 +408,32 @@ func vMonVAA(o *vMon, c *ralContracts, gc vaa.ChainID, ga vaa.Address, ts, gsi u
 	run, probs := c.parse(f, fn, p, skip, module)
 	for _, pr := range probs {
 		o.add("ral:"+k, "%s", pr)
+	}
+	if rec != nil {
+		rec.RalFn, rec.RalAbort, rec.Ral = fn, run.abort, vRalValues(&run)
+		if run.abort != "" {
+			rec.RalAbort = run.abort + " at " + run.abortAt
+		}
+		if len(p) >= 34 && len(p) <= 2048 {
+			flip := func(at int) []byte {
+				q := append([]byte{}, p...)
+				if at < len(q) {
+					q[at] ^= 1
+				}
+				return q
+			}
+			for _, q := range [][]byte{p[:len(p)-1], append(append([]byte{}, p...), 0), flip(33), flip(34), flip(36), flip(37), flip(len(p) - 1), p[:33], p[:34]} {
+				vr, _ := c.parse(f, fn, q, skip, module)
+				if strings.HasPrefix(vr.abort, "parseAndVerifyGovernanceVAAGeneric") {
+					continue
+				}
+				rv := &vRalVar{Payload: hex.EncodeToString(q), Abort: vr.abort, Ral: vRalValues(&vr)}
+				if vr.abort != "" {
+					rv.Abort = vr.abort + " at " + vr.abortAt
+				}
+				rec.RalVariants = append(rec.RalVariants, rv)
+			}
+		}
 	}
 	if run.abort != "" {
 		o.add("abort:"+k, "%s: the contract aborts on the produced payload (%d bytes, %s): %s at `%s`", vRequested(m), len(p), vShort(p), run.abort, run.abortAt)
@@ -535,7 +589,7 @@ func (h *vHarness) direct(tag string, gc vaa.ChainID, ga vaa.Address, ts, gsi ui
 		row.Out = "ok"
 		s, _ := vDescribe(v)
 		row.Sent = append(row.Sent, s)
-		vMonVAA(mon, h.c, gc, ga, ts, gsi, m, v)
+		vMonVAA(mon, h.c, gc, ga, ts, gsi, m, v, s)
 		if v2 == nil || v2.SigningMsg() != v.SigningMsg() {
 			mon.add("determinism:"+m.Kind, "the same request converted twice gives different digests")
 		}
@@ -581,7 +635,7 @@ func (h *vHarness) inject(tag string, gc vaa.ChainID, ga vaa.Address, ts, gsi ui
 	}
 	for i, v := range sent {
 		if i < len(msgs) {
-			vMonVAA(mon, h.c, gc, ga, ts, gsi, msgs[i], v)
+			vMonVAA(mon, h.c, gc, ga, ts, gsi, msgs[i], v, row.Sent[i])
 		}
 	}
 	switch {
